@@ -14,8 +14,8 @@ AGGS = ("count", "valid_count", "sum", "mean")
 # D, Ns, E, wl (weight level), Ks (fact columns; 0 = 1-D fact), fl (pattern level), forms (fact forms), vals (value tables), wforms
 SETS = {
     "quick": [
-        dict(D=0, Ns=[0, 1, 2, 3], E=2, wl=2, Ks=[0, 2], fl=1, forms=["nan", "pair-huge", "int"], vals=["pow2"], wforms=True),
-        dict(D=1, Ns=[0, 1], E=2, wl=3, Ks=[0, 2], fl=2, forms=["nan", "pair-nan", "pair-huge", "int"], vals=["pow2", "mixed"], wforms=True),
+        dict(D=0, Ns=[0, 1, 2, 3], E=2, wl=2, Ks=[0, 2, 3], fl=1, forms=["nan", "pair-huge", "int"], vals=["pow2"], wforms=True),
+        dict(D=1, Ns=[0, 1], E=2, wl=3, Ks=[0, 2, 3], fl=2, forms=["nan", "pair-nan", "pair-huge", "int"], vals=["pow2", "mixed"], wforms=True),
         dict(D=1, Ns=[2], E=2, wl=2, Ks=[0, 2], fl=2, forms=["nan", "pair-huge", "int"], vals=["pow2"], wforms=True),
         dict(D=1, Ns=[3], E=2, wl=1, Ks=[0, 2], fl=1, forms=["nan"], vals=["pow2"], wforms=False),
         dict(D=2, Ns=[1], E=2, wl=2, Ks=[0, 2], fl=1, forms=["nan", "int"], vals=["pow2"], wforms=False),
